@@ -523,12 +523,16 @@ fn process_tags(
             let el = if let Some(el) = t.get_element() {
                 // update early so reuse targets are available even if the element
                 // is not ready (e.g. within a specs block)
-                context.update_element(&el);
-                Some(el.clone())
+                let reg_id = context.update_element(&el);
+                Some((el.clone(), reg_id))
             } else {
                 None
             };
             let gen_result = t.generate_events(context);
+            if let Some((_, Some(reg_id))) = &el {
+                context.set_pending(reg_id, gen_result.is_err() && !context.in_specs);
+            }
+            let el = el.map(|(el, _)| el);
             if !context.in_specs {
                 // if we *are* in a specs block, we don't care if there were errors;
                 // a specs entry may have insufficient context until reuse time.
